@@ -1,6 +1,7 @@
 From Coq Require Import Extraction ExtrOcamlBasic.
-From PV Require Import Lib.ExtractBase Model.SchedTree.
+From PV Require Import Lib.ExtractBase Model.SchedTree Model.SchedConc.
 Extraction Language OCaml.
 Extraction "extracted/C02_model.ml" xb_types build s_start s_next s_left new_composite flatten flatten_cfg
   size size_cfg instance_step items_from abs_next abs_left drop_closed
-  cb_init cb_after_next cb_after_left run_tree run_abs a_init.
+  cb_init cb_after_next cb_after_left run_tree run_abs a_init
+  sec_next0 sec_next1 sec_left0 sec_left1 comp_len.
